@@ -188,6 +188,10 @@ class ResultsAggregator:
     def _append_processed_results(self, results):
         assert not self._is_node
         with open(self._filename, "a") as f_out:
+            if f_out.tell() == 0:
+                # The file was never created, such as when the first submitter failed early.
+                f_out.write(self._delimiter.join(self._get_fields()))
+                f_out.write("\n")
             for result in results:
                 text = self._delimiter.join([str(getattr(result, x)) for x in self._get_fields()])
                 f_out.write(text)
